@@ -152,6 +152,8 @@ impl OpenPartitionIndex {
         file: &mut File,
         index: &BTreeMap<PartitionId, PartitionIndexRecord<Vec<PartitionSequenceOffset>>>,
     ) -> Result<(Mphf<PartitionId>, u64), PartitionIndexError> {
+        #[cfg(feature = "verif")]
+        seglog::verif::point("flush:start", 1, seglog::verif::fd_of(file));
         // Collect all keys from the index
         let keys: Vec<PartitionId> = index.keys().copied().collect();
         let n = keys.len() as u64;
